@@ -408,13 +408,17 @@ def part_b(ctx):
 # part (a): session protocol
 # ================================================================================================
 
-ASIS = {"FallbackShell": "FALSE", "CloseOnFailure": "FALSE", "FallbackOnTimeout": "TRUE"}
-FIXED = {"FallbackShell": "TRUE", "CloseOnFailure": "TRUE", "FallbackOnTimeout": "FALSE"}
+ASIS = {"FallbackShell": "FALSE", "CloseOnFailure": "FALSE", "FallbackOnTimeout": "TRUE", "PreambleInShell": "FALSE"}
+FIXED = {"FallbackShell": "TRUE", "CloseOnFailure": "TRUE", "FallbackOnTimeout": "FALSE", "PreambleInShell": "FALSE"}
+LEAK = dict(ASIS, PreambleInShell="TRUE")
+STATE_SHAPES = '{"probe", "nonl"}'
+STATE_PRES = '{"none", "wd", "env", "both"}'
 INVARIANTS = ["TypeOK", "FreshEquivalence", "OwnOutput", "NoSpuriousTimeout", "ReturnedOnce", "NeverTwice", "VerbatimCommand"]
 
 
-def _shell_cfg(n, timeout, kill, variant, invariants, gen=False, statuses="{0, 3}"):
-    lines = ['CONSTANTS N = %d  Shapes = {"empty", "nonl", "multi", "mlike"}  Statuses = %s' % (n, statuses),
+def _shell_cfg(n, timeout, kill, variant, invariants, gen=False, statuses="{0, 3}",
+               shapes='{"empty", "nonl", "multi", "mlike"}', pres='{"none"}'):
+    lines = ['CONSTANTS N = %d  Shapes = %s  Statuses = %s  Pres = %s' % (n, shapes, statuses, pres),
              "CONSTANTS AllowTimeout = %s  AllowKill = %s" % ("TRUE" if timeout else "FALSE", "TRUE" if kill else "FALSE"),
              "CONSTANTS " + "  ".join("%s = %s" % kv for kv in variant.items()),
              "INIT MCInit", "NEXT %s" % ("GenNext" if gen else "MCNext")]
@@ -449,6 +453,17 @@ def _history_class(beh, k):
     return "after-" + "+".join(sorted(seen)) if seen else "clean"
 
 
+def _state_leak(attr, g, exp):
+    """A "probe" command printed a directory / variable value that is not the one a fresh process sees."""
+    if attr["shape"] != "probe":
+        return []
+    want = dict(l.split("=", 1) for l in exp["out"].split("\n") if "=" in l)
+    got = dict(l.split("=", 1) for l in g["out"].split("\n") if "=" in l)
+    if set(got) != {"cw", "ev"}:
+        return []
+    return [name for key, name in (("cw", "cwd"), ("ev", "env")) if got[key] != want.get(key)]
+
+
 def _judge_session(ctx, beh, obs, world, stats):
     """Property verdict for one replayed behaviour (+ agreement with the specification's prediction)."""
     from vh.sut import shell_session as ss
@@ -478,14 +493,23 @@ def _judge_session(ctx, beh, obs, world, stats):
                 clause = "raised-%s" % g["kind"]
             else:
                 clause = "%s-instead-of-timeout" % g["kind"]
-            if same_as_spec and via == "shell" and clause in ("output", "status"):
+            leak = _state_leak(attr, g, exp) if clause == "output" else []
+            if leak:
+                sig = None
+                for what in leak:
+                    ctx.violation("session:state-leak:%s" % what, detail,
+                                  "%s session, call %d sees the %s left behind by an earlier command: expected %r, observed %r"
+                                  % (world, k, {"cwd": "working directory", "env": "environment variable"}[what],
+                                     exp["out"], g["out"]))
+            elif same_as_spec and via == "shell" and clause in ("output", "status"):
                 sig = "session:stale-output-after-timeout"
             elif same_as_spec and via == "fallback":
                 sig = "fallback:argv-run-without-shell:session"
             else:
                 sig = "session:%s:unpredicted:%s:%s" % (clause, attr["shape"], hc)
-            ctx.violation(sig, detail, "%s session, call %d (%s, %s): expected %s, observed %s"
-                          % (world, k, attr["shape"], hc, exp, g))
+            if sig is not None:
+                ctx.violation(sig, detail, "%s session, call %d (%s, %s): expected %s, observed %s"
+                              % (world, k, attr["shape"], hc, exp, g))
             stats["%s:violating_calls" % world] += 1
         if obs["garbled"][k]:
             sig = ("fallback:argv-run-without-shell:session" if spec_garbled
@@ -542,6 +566,8 @@ def _features(b):
     acts = [s["a"] for s in b["hist"]]
     for x, y in zip(acts, acts[1:]):
         f.add(("seq", x, y))
+    for a1, a2 in zip(b["attr"], b["attr"][1:]):
+        f.add(("state", a1.get("pre", "none"), a2["shape"], a2.get("pre", "none")))
     return f
 
 
@@ -570,6 +596,11 @@ def _replay_real_batch(ctx, behs, stats):
     root = ctx.scratch("session")
     script = ss.write_cmd_script(root)
     counter = [0]
+    w0 = os.path.join(root, "w0")          # the directory every persistent shell is started in
+    os.makedirs(w0, exist_ok=True)
+    os.environ.pop(ss.STATE_VAR, None)
+    cwd0 = os.getcwd()
+    os.chdir(w0)
 
     async def one(b, T, STALL):
         counter[0] += 1
@@ -624,7 +655,10 @@ def _replay_real_batch(ctx, behs, stats):
                 return obs
         return await asyncio.gather(*(guarded_one(b) for b in behs))
 
-    res, exc = aio.run(all_(), timeout=ctx.pick(900, 2400))
+    try:
+        res, exc = aio.run(all_(), timeout=ctx.pick(900, 2400))
+    finally:
+        os.chdir(cwd0)
     if exc is not None:
         raise exc
     for b, obs in zip(behs, res):
@@ -747,6 +781,19 @@ def part_a(ctx):
     r = ctx.tlc("Shell", "MC_Shell", "fixed.cfg", files={"fixed.cfg": _shell_cfg(nfix, True, True, FIXED, INVARIANTS)}, timeout=3000)
     if not r.ok:
         ctx.require(False, "Shell: the repaired protocol violates %s in the model\n%s" % (r.violated, r.stdout[-1500:]))
+    # the shell's own state (cwd, exported variable): as coded the preamble of a command runs in a child process
+    r = ctx.tlc("Shell", "MC_Shell", "state.cfg",
+                files={"state.cfg": _shell_cfg(3, False, False, ASIS, [i for i in INVARIANTS if i not in ("NoSpuriousTimeout", "VerbatimCommand")]
+                                               + ["ShellStateUnchanged"], statuses="{0}", shapes=STATE_SHAPES, pres=STATE_PRES)},
+                timeout=1800)
+    if not r.ok:
+        ctx.require(False, "Shell: the as-coded protocol changes the session state in the model (%s)\n%s" % (r.violated, r.stdout[-1500:]))
+    if not ctx.quick:
+        # sensitivity: with the preamble executed by the session shell itself the model must see the leak
+        r = ctx.tlc("Shell", "MC_Shell", "leak.cfg",
+                    files={"leak.cfg": _shell_cfg(2, False, False, LEAK, ["FreshEquivalence"], statuses="{0}",
+                                                  shapes=STATE_SHAPES, pres=STATE_PRES)}, timeout=1800)
+        ctx.require(r.error == "invariant", "a preamble executed by the session shell must violate FreshEquivalence in the model")
     cex = _model_cex(ctx, ctx.pick([], ["FreshEquivalence", "ReturnedOnce", "NeverTwice", "VerbatimCommand"]))
     ctx.count("session:model_counterexamples", len(cex))
     _t(ctx, "a:model")
@@ -762,6 +809,24 @@ def part_a(ctx):
         if key not in seen:
             seen.add(key)
             behs.append(b)
+    g2 = ctx.tlc("Shell", "MC_Shell", "gen_state.cfg",
+                 files={"gen_state.cfg": _shell_cfg(3, False, False, ASIS, [], gen=True, statuses="{0}", shapes=STATE_SHAPES,
+                                                    pres=STATE_PRES)}, workers=1, count=False,
+                 simulate={"num": ctx.pick(120, 600), "depth": 60}, timeout=1800)
+    state_behs = []
+    for b in g2.printed_json():
+        if "hist" not in b:
+            continue
+        b = _norm_beh(b)
+        key = _beh_key(b)
+        if key not in seen:
+            seen.add(key)
+            state_behs.append(b)
+    follow_up = sum(1 for b in state_behs for a1, a2 in zip(b["attr"], b["attr"][1:])
+                    if a1["pre"] != "none" and a2["shape"] == "probe" and a2["pre"] != "both")
+    ctx.require(follow_up >= 10, "vacuous: only %d probe commands follow a command with workdir/environment" % follow_up)
+    ctx.count("session:state_behaviours_generated", len(state_behs))
+    ctx.count("session:probe_after_preamble_pairs", follow_up)
     ctx.require(len(behs) >= 100, "only %d behaviours generated" % len(behs))
     acts = {}
     for b in behs:
@@ -776,12 +841,12 @@ def part_a(ctx):
         or any(b["garbled"])))
     _t(ctx, "a:generate")
     # ---- 3. chunk-exact binding on the scripted environment (virtual time)
-    _replay_fake_batch(ctx, behs, stats)
+    _replay_fake_batch(ctx, behs + state_behs, stats)
     _replay_cex(ctx, cex, stats)
     ctx.sample({"behaviour": {"attr": behs[0]["attr"], "hist": behs[0]["hist"]}, "spec_ret": behs[0]["ret"]})
     _t(ctx, "a:fake")
     # ---- 4. real /bin/sh sessions
-    chosen = _select(behs, ctx.pick(28, 120), ctx.rng("real"))
+    chosen = _select(behs, ctx.pick(24, 120), ctx.rng("real")) + _select(state_behs, ctx.pick(14, 80), ctx.rng("real-state"))
     _replay_real_batch(ctx, chosen, stats)
     _t(ctx, "a:real")
     _, exc = aio.run(_large_outputs(ctx, stats), timeout=1200)
@@ -824,7 +889,19 @@ def _only_calls(b, made):
 
 # ================================================================================================
 
+def _record_signatures(ctx):
+    """Every signature handed to ctx.violation is counted in the evidence (to audit stale known-finding patterns)."""
+    seen = ctx.extra.setdefault("signatures_seen", {})
+    orig = ctx.violation
+
+    def violation(signature, detail=None, what=""):
+        seen[signature] = seen.get(signature, 0) + 1
+        return orig(signature, detail, what)
+    ctx.violation = violation
+
+
 def run(ctx):
+    _record_signatures(ctx)
     ctx.rule = ("(b) every sequence of <=3 (thorough 4) character classes out of 11, instantiated with concrete characters, as "
                 "environment value, working directory and argument through the real LocalConnector.run, BaseConnector.run (shell "
                 "path and fallback path) and CommandTemplateMap.get_command, executed by /bin/sh with a probe script; non-trivial = "
